@@ -123,6 +123,8 @@ def jointUniqueErrors (T : ScopeTable) (d : Depth) (S : Schema) (D : Frame) : Li
   if optRuns T.jointUnique d && !S.unique.isEmpty then
     let subset := S.unique.filter D.hasCol
     let cols := subset.filterMap D.col?
+    -- none of the columns is present: nothing to compare (absent columns are the presence check's business)
+    if cols.isEmpty then [] else
     let rows := rowsOf D.nrows (cols.map (·.vals))
     let dupPos := truePositions (dupRowMask S.reportDup rows)
     if dupPos.isEmpty then [] else
